@@ -364,6 +364,19 @@ func (lb *LoadBalancer) checkBackendHealth(backend *Backend) {
 	}
 
 	resp, err := lb.performHealthCheck(backend)
+	// The backend may have been removed while its probe was on the way. Health is published by
+	// backend name: what a late probe says is about the backend that is gone and must not be
+	// published for a backend that has been registered under the name since
+	// (the pool's lock is held until the result has been applied, so that the backend cannot be
+	// removed, registered anew and ejected in between)
+	lb.mutex.RLock()
+	defer lb.mutex.RUnlock()
+	if !lb.isRegisteredLocked(backend) {
+		if err == nil {
+			_ = resp.Body.Close()
+		}
+		return
+	}
 	if err != nil {
 		lb.handleHealthCheckFailure(backend, err)
 		return
@@ -998,6 +1011,11 @@ func (lb *LoadBalancer) connectionsUnderName(backend *Backend) func() int32 {
 func (lb *LoadBalancer) isRegistered(backend *Backend) bool {
 	lb.mutex.RLock()
 	defer lb.mutex.RUnlock()
+	return lb.isRegisteredLocked(backend)
+}
+
+// isRegisteredLocked is isRegistered for callers that hold lb.mutex
+func (lb *LoadBalancer) isRegisteredLocked(backend *Backend) bool {
 	for _, b := range lb.strategy.GetBackends() {
 		if b == backend {
 			return true
